@@ -83,8 +83,8 @@ def call_strict(el, v):
             return "OTHER:" + type(exc).__name__
 
 
-def check_state(st, model, hist_names):
-    for name in NAMES:
+def check_state(st, model, hist_names, names=None):
+    for name in (names or NAMES):
         for kname, el, wrap in kinds(name):
             typed = "String" in kname or "type:string" in kname or kname == "property of model"
             for v in VALUES:
@@ -118,6 +118,37 @@ def check_state(st, model, hist_names):
                     st.violation("format-warning-count", "after %s: %s format=%r value %r produced %d warnings, expected %d" % (hist_names, kname, name, v, nwarn, want_warn), {**case, "warnings": nwarn}, rank=len(hist_names))
                 elif not isinstance(v, str) and nwarn:
                     st.violation("format-warning-for-nonstring", "after %s: %s format=%r non-string %r produced a format warning" % (hist_names, kname, name, v), case, rank=len(hist_names))
+
+
+# format names that have a close relative: another normal form, another case, surrounding blanks, a compatibility spelling
+SPELLINGS = [
+    ("cafe\u0301-code", "caf\u00e9-code"), ("\u212b-unit", "\u00c5-unit"), ("UUID", "uuid"), ("uuid ", "uuid"), ("\uff55\uff55\uff49\uff44", "uuid"),
+    ("Date-Time", "date-time"), ("date_time", "date-time"), ("x-custom\n", "x-custom"), ("", "x-custom"),
+]
+
+
+def spelling_layer(st, lo, hi):
+    """Every registration pattern over two near-identical names: only the exact name written in the schema counts."""
+    regs = [
+        {}, {0: "always_false"}, {1: "always_false"}, {0: "always_false", 1: "always_true"}, {0: "always_true", 1: "always_false"}, {0: "is_lower", 1: "always_false"},
+    ]
+    for pair in SPELLINGS[lo:hi]:
+        for reg in regs:
+            format_checker._callable_register.clear()
+            format_checker._callable_register.update(_PRISTINE)
+            model = {k: ("builtin:" + k, fn) for k, fn in _PRISTINE.items()}
+            hist = []
+            for idx, pname in sorted(reg.items()):
+                format_checker.register(pair[idx])(PREDS[pname])
+                model[pair[idx]] = (pname, PREDS[pname])
+                hist.append("register(%r, %s)" % (pair[idx], pname))
+            st.add("states")
+            st.add("transitions", max(1, len(reg)))
+            st.add("nontrivial")
+            st.add("traces")
+            check_state(st, model, hist, names=[n for n in pair if n not in _PRISTINE])
+    format_checker._callable_register.clear()
+    format_checker._callable_register.update(_PRISTINE)
 
 
 def persistent_elements():
@@ -294,13 +325,16 @@ def plan(tier, seed):
     nt = sum(1 for _ in timestamp_family(tier))
     chunk = 4000
     items += [("ts", lo, min(nt, lo + chunk), tier) for lo in range(0, nt, chunk)]
-    return {"items": items, "meta": {"registry_depth": depth, "names": NAMES, "predicates": sorted(PREDS), "values": len(VALUES), "uuids": nu, "timestamps": nt, "exhaustive": True}}
+    items += [("spell", lo, lo + 1) for lo in range(len(SPELLINGS))]
+    return {"items": items, "meta": {"spellings": SPELLINGS, "registry_depth": depth, "names": NAMES, "predicates": sorted(PREDS), "values": len(VALUES), "uuids": nu, "timestamps": nt, "exhaustive": True}}
 
 
 def work(item):
     st = runner.Stats()
     if item[0] == "reg":
         run_registry(st, item[1], item[2])
+    elif item[0] == "spell":
+        spelling_layer(st, item[1], item[2])
     elif item[0] == "uuid":
         run_builtin(st, "uuid", item[1], item[2], item[3])
     else:
